@@ -112,6 +112,8 @@ def regenerate_consts():
 def forbidden_scan():
     bad = []
     for root, _, files in os.walk(COQ):
+        if os.sep + "scratch" in root:
+            continue
         for f in files:
             if f.endswith(".v"):
                 p = os.path.join(root, f)
